@@ -12,13 +12,19 @@ MANIFEST = dict(
          "of voters (fees and amounts straddling the 200-LEMO boundary), vote, re-vote, register, top-up, unregister on the same accounts, over 2 "
          "blocks in the middle of a term, and over the interim block, the REWARD block (term reward issue, deferred deposit refunds, then the "
          "vote-by-balance pass) and the block after it around a term boundary (unregistering deferred by the interim period / for deputies "
-         "of the signing term, reward set through the precompile); every transition is executed on real nodes (real signed transactions, real BlockAssembler block after every step, second real "
+         "of the signing term, reward set through the precompile); VOTERS AT BALANCE ZERO (an account that owns nothing votes with its gas "
+         "paid by another account and is funded later; a voter sends away its whole balance to the last unit and is refunded) and ROLLED-BACK "
+         "vote-affecting transactions (register / top-up across and below a deposit-vote boundary / vote / unregister as sub transactions of a "
+         "box that the miner gives up because a later sub transaction is invalid, the candidate touched by another transaction of the same "
+         "block); every transition is executed on real nodes (real signed transactions, real BlockAssembler block after every step, second real "
          "node through DPoVP.InsertBlock) and TLC evaluates the formula on the REAL votes / voteFor / deposit / registration / balances of the whole "
-         "universe read at every block.",
+         "universe read at every block, and the votes the node's candidate ranking (the list the next election reads) records for every "
+         "listed candidate equal the votes of its account.",
     note="The formula is evaluated on real state only; after a block accepted under the listed deviation the following blocks are compared with the "
          "recomputed tally of that block's transactions (so further divergences are still reported). The income account is a voter too (fees move "
          "its weight). Term boundary: term / interim duration shrunk to 5-6 / 1-2 blocks, the (empty) snapshot block is part of the setup chain; "
-         "the design run also shows that a vote pass placed before the refunds violates the formula (mutant Mut_VotePassBeforeRefund). "
+         "the design run also shows that a vote pass placed before the refunds violates the formula (mutant Mut_VotePassBeforeRefund), that a vote pass skipping accounts that owned nothing at the start of the block does "
+         "(Mut_ZeroStartSkipped) and that a given-up box keeping the votes its sub transactions set does (Mut_BadBoxKeepsVotes). "
          "Known defect carried as deviation Dev_VoteUsesPreTxBalance.",
     technique="TLA+ model checking (Ledger.tla over LedgerOps.tla) + replay of the TLC state graph and simulated behaviours on real nodes "
               "(adapter ledger) + TLC trace validation (TraceLedger.tla, Check = C11)")
@@ -26,6 +32,9 @@ MANIFEST = dict(
 
 def run(ctx):
     ledger_common.run(ctx, "C11", exhaustive=dict(quick="c11_quick", thorough="c11_thorough"),
-                      negatives=[("c11_neg", ["VotesAtBoundary"]), ("c11_negterm", ["VotesAtBoundary"])],
+                      negatives=[("c11_neg", ["VotesAtBoundary"]), ("c11_negterm", ["VotesAtBoundary"]),
+                                 ("c11_negzero", ["VotesAtBoundary"]), ("c11_negroll", ["VotesAtBoundary", "NotIncludedIsFree"])],
+                      more=[dict(name="zero", quick="c11_zero", thorough="c11_zero_thorough"),
+                            dict(name="roll", quick="c11_roll", thorough="c11_roll_thorough")],
                       sim="c11_sim", sim_quick=150, sim_thorough=3000, depth=9,
                       term=dict(graph=dict(quick="c11_term", thorough="c11_term_thorough"), sim="c11_simterm", sim_quick=64, sim_thorough=800, depth=10))
